@@ -1160,6 +1160,16 @@ def step (w : World) (line : String) : World × String :=
     let all := names.flatMap fun n => (w.snaps.lookup n).getD []
     (w, showEntries (sortById (Spec.join all)))
   -- delete derived tables (as plain redb would) and open the database again
+  -- the same for a database whose write capabilities live in the first-generation table
+  | ["tmigrate", sid, dl, dk, "v1"] =>
+    match parseNat? sid, parseBool? dl, parseBool? dk with
+    | some sid, some dl, some dk =>
+      match w.getT sid with
+      | some t =>
+        let old := Tables.toV1 (Tables.dropDerived t dl dk)
+        (w.setT sid (Tables.reopenV1 old.1 old.2), "ok")
+      | none => (w, "no-store")
+    | _, _, _ => (w, "bad-op")
   | ["tmigrate", sid, dl, dk] =>
     match parseNat? sid, parseBool? dl, parseBool? dk with
     | some sid, some dl, some dk =>
